@@ -60,8 +60,15 @@ def from_gopherplus_items(items) -> typing.List[Entry]:
 FIXED_HTML_LINKS = {"/": "server top"}
 
 
+# the URL path of the page whose links are being read (relative references resolve against it, as in a browser)
+CURRENT_PAGE_PATH = "/"
+
+
 def _href_entry(href: str, text: str, search: bool, prefix: str = "") -> Entry:
     name = text.encode("utf-8", "surrogateescape")
+    if not href.startswith("/") and not re.match(r"[A-Za-z][A-Za-z0-9+.-]*:", href) and not href.startswith("#"):
+        # no scheme, no leading slash: a relative reference
+        href = urllib.parse.urljoin(CURRENT_PAGE_PATH, href)
     if href.startswith("/"):
         path = href
         if prefix and path.startswith(prefix):
